@@ -156,7 +156,7 @@ pub fn hostile_db_strategy() -> BoxedStrategy<HostileDb> {
 pub fn strategy() -> BoxedStrategy<Case> {
     (
         hostile_db_strategy(),
-        prop_oneof![85 => query_strategy().prop_map(Sql::Q), 15 => (0u8..24, any::<u16>(), any::<u16>()).prop_map(|(k, a, b)| Sql::Unsupported(k, a, b))],
+        prop_oneof![85 => query_strategy().prop_map(Sql::Q), 15 => (0u8..28, any::<u16>(), any::<u16>()).prop_map(|(k, a, b)| Sql::Unsupported(k, a, b))],
         pu_strategy(),
         prop_oneof![1 => dp_strategy(), 1 => dp_extreme_strategy()],
     )
